@@ -5,34 +5,74 @@ use std::time::Instant;
 
 use serde_json::{json, Value};
 
+use crate::builders::*;
 use crate::common::*;
 use crate::lens::{self, Lens};
 use crate::monitors::*;
+use crate::sweeps;
 
 pub fn run(prop: &str, tier: Tier, seed: i64, replay: Option<&str>) -> i32 {
     let started = Instant::now();
+    if prop == "selftest" {
+        return crate::selftest::run();
+    }
+    let prop = prop_static(prop);
     if let Some(path) = replay {
         return run_replay(prop, path);
     }
+    let mut ck = Check::new(prop, tier, seed, started);
     match prop {
-        "selftest" => crate::selftest::run(),
-        "C01" | "C02" | "C04" | "C05" | "C06" | "C07" | "C10" | "C13" => string_check(prop, tier, seed, started),
+        "C01" | "C02" | "C04" | "C05" | "C06" | "C07" | "C10" | "C13" => {
+            ck.lens_stage(plans_for(prop, tier));
+            if matches!(prop, "C06" | "C01" | "C10" | "C04") {
+                ck.pumping_stage();
+            }
+        },
+        "C03" => {
+            let (a, r) = sweeps::c03_sweep(tier);
+            ck.add_stage(a, r);
+            ck.lens_stage(plans_for(prop, tier));
+        },
+        #[cfg(feature = "typed")]
+        "C08" => {
+            let (a, r) = sweeps::c08_sweep(tier);
+            ck.add_stage(a, r);
+            ck.lens_stage(plans_for(prop, tier));
+        },
+        #[cfg(feature = "typed")]
+        "C15" => {
+            let (a, r) = sweeps::c15_sweep(tier);
+            ck.add_stage(a, r);
+        },
+        #[cfg(feature = "typed")]
+        "C18" => {
+            let (a, r) = sweeps::c18_sweep(tier);
+            ck.add_stage(a, r);
+            ck.lens_stage(plans_for(prop, tier));
+        },
         _ => {
-            eprintln!("MACHINERY: no check for {prop}");
-            2
+            eprintln!("MACHINERY: no check for {prop} in this build");
+            return 2;
+        },
+    }
+    ck.finish()
+}
+
+pub fn prop_static(p: &str) -> &'static str {
+    const IDS: [&str; 19] = [
+        "C01", "C02", "C03", "C04", "C05", "C06", "C07", "C08", "C09", "C10", "C11", "C12", "C13", "C14", "C15", "C16", "C17", "C18", "C19",
+    ];
+    match IDS.iter().find(|x| **x == p) {
+        Some(x) => x,
+        None => {
+            eprintln!("MACHINERY: unknown property id {p}");
+            std::process::exit(2)
         },
     }
 }
 
-fn prop_static(p: &str) -> &'static str {
-    const IDS: [&str; 19] = [
-        "C01", "C02", "C03", "C04", "C05", "C06", "C07", "C08", "C09", "C10", "C11", "C12", "C13", "C14", "C15", "C16", "C17", "C18", "C19",
-    ];
-    IDS.iter().find(|x| **x == p).copied().expect("unknown property id")
-}
-
 /// Re-run exactly one recorded case without any explorer.
-fn run_replay(prop: &str, path: &str) -> i32 {
+fn run_replay(prop: &'static str, path: &str) -> i32 {
     let text = match std::fs::read_to_string(path) {
         Ok(t) => t,
         Err(e) => {
@@ -40,9 +80,14 @@ fn run_replay(prop: &str, path: &str) -> i32 {
             return 2;
         },
     };
-    let v: Value = serde_json::from_str(&text).expect("replay file is not JSON");
+    let v: Value = match serde_json::from_str(&text) {
+        Ok(v) => v,
+        Err(e) => {
+            eprintln!("MACHINERY: {path} is not JSON: {e}");
+            return 2;
+        },
+    };
     let case = if v.get("case").is_some() { v["case"].clone() } else { v.clone() };
-    let prop = prop_static(prop);
     match replay_case(prop, &case) {
         None => {
             eprintln!("MACHINERY: cannot replay this kind of case: {case}");
@@ -77,154 +122,217 @@ pub fn monitors_for(prop: &str) -> u32 {
         "C10" => M10,
         "C12" => M12,
         "C13" => M13,
+        "C18" => M18,
         _ => 0,
     }
 }
 
 /// Replay dispatcher: every engine's case format is understood here.
 pub fn replay_case(prop: &'static str, case: &Value) -> Option<Vec<Violation>> {
+    let mut acc = Acc::new();
     match case["engine"].as_str()? {
         "string" => {
             let s = case["input"].as_str()?;
-            let se = StringEval { prop, mon: monitors_for(prop) };
-            let mut acc = Acc::new();
-            se.eval(s, &mut acc);
-            Some(acc.violations)
+            StringEval { prop, mon: monitors_for(prop) }.eval(s, &mut acc);
         },
-        _ => None,
+        "build" => {
+            let spec = BuildSpec::from_json(&case["spec"])?;
+            BuildEval { prop, mon: monitors_for(prop) }.eval(case["flavor"].as_str()?, &spec, &mut acc);
+        },
+        #[cfg(feature = "typed")]
+        "c08-name" => sweeps::c08_name_case(case["ty"].as_str()?, case["name"].as_str()?, &mut acc),
+        #[cfg(feature = "typed")]
+        "c08-maven-ns" => sweeps::c08_maven_case(case["ns"].as_str()?, &mut acc),
+        #[cfg(feature = "typed")]
+        "c15" => sweeps::c15_case(case["input"].as_str()?, &mut acc),
+        #[cfg(feature = "typed")]
+        "c18-forward" => sweeps::c18_forward(case["ty"].as_str()?, case["combined"].as_str()?, &mut acc),
+        _ => return None,
     }
+    Some(acc.violations)
 }
 
-struct Plan {
-    lens: Lens,
-    n: usize,
+pub struct Plan {
+    pub lens: Lens,
+    pub n: usize,
 }
 
-fn plans_for(prop: &str, tier: Tier) -> Vec<Plan> {
+fn typed_plans(tier: Tier, names: &[&str]) -> Vec<Plan> {
+    let mut plans = Vec::new();
+    for name in names {
+        let l = lens::lens(name);
+        if *name == "A3" {
+            let mut c = l.clone();
+            c.name = "A3-typed";
+            c.prefixes = vec!["pkg:npm/", "pkg:maven/x/", "pkg:golang/n#"];
+            let n = c.bound(tier).saturating_sub(1);
+            plans.push(Plan { lens: c, n });
+            continue;
+        }
+        let mut single = l.clone();
+        single.prefixes.truncate(1);
+        let mut c = lens::typed_copy(&single, 1);
+        c.name = match *name {
+            "A1b" => "A1b-typed",
+            "A5b" => "A5b-typed",
+            _ => "A6-typed",
+        };
+        let n = c.bound(tier);
+        plans.push(Plan { lens: c, n });
+    }
+    plans
+}
+
+pub fn plans_for(prop: &str, tier: Tier) -> Vec<Plan> {
     let all = lens::all_lenses();
     let pick = |names: &[&str]| -> Vec<Lens> { names.iter().map(|n| lens::lens(n)).collect() };
     let base: Vec<Lens> = match prop {
         "C07" => pick(&["A3", "A1a", "A1b"]),
         "C13" => pick(&["A2-", "A1a", "A1b", "A3", "A4", "A5a", "A5b", "A6"]),
+        "C08" => pick(&["A7", "A2-", "A1b"]),
+        "C18" => pick(&["A7"]),
         _ => all.clone(),
     };
     let mut plans: Vec<Plan> = base.iter().map(|l| Plan { lens: l.clone(), n: l.bound(tier) }).collect();
-    if matches!(prop, "C01" | "C04" | "C06" | "C07" | "C10" | "C02" | "C05") {
-        for name in ["A1b", "A3", "A5b", "A6"] {
-            let l = lens::lens(name);
-            if name == "A3" {
-                // A3 has two prefixes; build typed copies by hand
-                let mut c = l.clone();
-                c.name = "A3-typed";
-                c.prefixes = vec!["pkg:npm/", "pkg:maven/x/", "pkg:golang/n#"];
-                let n = c.bound(tier).saturating_sub(1);
-                plans.push(Plan { lens: c, n });
-                continue;
-            }
-            let mut single = l.clone();
-            single.prefixes.truncate(1);
-            let mut c = lens::typed_copy(&single, 1);
-            c.name = match name {
-                "A1b" => "A1b-typed",
-                "A5b" => "A5b-typed",
-                _ => "A6-typed",
-            };
-            let n = c.bound(tier);
-            plans.push(Plan { lens: c, n });
-        }
+    match prop {
+        "C01" | "C03" | "C04" | "C06" | "C07" | "C10" | "C02" | "C05" | "C08" => plans.extend(typed_plans(tier, &["A1b", "A3", "A5b", "A6"])),
+        "C18" => plans.extend(typed_plans(tier, &["A1b", "A3"])),
+        _ => {},
     }
     plans
 }
 
-fn string_check(prop: &str, tier: Tier, seed: i64, started: Instant) -> i32 {
-    let prop = prop_static(prop);
-    let se = StringEval { prop, mon: monitors_for(prop) };
-    let plans = plans_for(prop, tier);
-    let mut total = Acc::new();
-    let mut lens_report: Vec<Value> = Vec::new();
-    for (i, pl) in plans.iter().enumerate() {
-        let earlier: Vec<&Plan> = plans[..i].iter().collect();
-        let t0 = Instant::now();
-        let mut a = lens::explore(&pl.lens, pl.n, |s, acc| {
-            let nt = se.eval(s, acc);
-            if nt {
-                if earlier.iter().any(|e| e.lens.contains(s, e.n)) {
-                    acc.count("nontrivial_strings_already_counted_in_an_earlier_lens");
-                } else {
-                    acc.nontrivial += 1;
-                    acc.sample(|| json!(s));
-                }
-            }
-        });
-        lens_report.push(json!({
-            "lens": pl.lens.name, "prefixes": pl.lens.prefixes, "alphabet": pl.lens.alphabet, "suffixes": pl.lens.suffixes,
-            "max_tokens": pl.n, "strings": a.evals, "expected_strings": pl.lens.size(pl.n), "accepted": a.accepted,
-            "nontrivial_new": a.nontrivial, "wall_s": t0.elapsed().as_secs_f64(),
-        }));
-        assert_eq!(a.evals, pl.lens.size(pl.n), "lens {} was not enumerated completely", pl.lens.name);
-        // keep a few samples per lens
-        a.samples.truncate(2);
-        total.merge(a);
-    }
-    // A8 pumping (C06 and the round-trip properties)
-    let mut pump_n = 0u64;
-    if matches!(prop, "C06" | "C01" | "C10" | "C04") {
-        let inputs = lens::pumping(tier);
-        pump_n = inputs.len() as u64;
-        let t0 = Instant::now();
-        let mut slowest = (0f64, 0usize);
-        let a = par_items(inputs.len(), threads(), |i, acc| {
-            let nt = se.eval(&inputs[i], acc);
-            if nt {
-                acc.nontrivial += 1;
-            }
-        });
-        // watchdog figure: time the slowest family members again, single-threaded
-        for (i, s) in inputs.iter().enumerate().rev().take(4) {
-            let t = Instant::now();
-            let mut scratch = Acc::new();
-            se.eval(s, &mut scratch);
-            let d = t.elapsed().as_secs_f64();
-            if d > slowest.0 {
-                slowest = (d, i);
-            }
-        }
-        if slowest.0 > 120.0 {
-            total.violate(Violation { prop: "C06", kind: "hang".into(), case: json!({"engine":"pumping","index":slowest.1}), detail: format!("one input took {:.0}s", slowest.0) });
-        }
-        lens_report.push(json!({"lens":"A8-pumping","strings":a.evals,"max_len":inputs.iter().map(|s| s.len()).max(),"wall_s":t0.elapsed().as_secs_f64(),"slowest_single_input_s":slowest.0}));
-        total.merge(a);
-    }
-    let rule = match prop {
+fn rule_for(prop: &str) -> &'static str {
+    match prop {
         "C01" => "every node of every token lens (all strings P.t1..tk.S, k<=n) is parsed as GenericPurl<String>, GenericPurl<SmallString> and Purl; non-trivial = accepted by at least one of them (the round trip is then executed); distinct = distinct strings (alphabets are uniquely decodable, strings already counted in an earlier lens are not counted again)",
         "C02" => "every node of every token lens; non-trivial = the independent reference parser judges the string and finds no defect (the implementation must then return exactly the reference components); distinct strings as for C01",
+        "C03" => "sweep: every Unicode scalar value c, alone and as 'a c b', and every ASCII pair, placed in each of namespace, name, version, qualifier value, subpath through the builder, for the listed type parameters and types - non-trivial = the build succeeds and to_string() is compared with the independent renderer; lenses: every accepted node (parser-obtained values) is compared the same way",
         "C04" => "every node of every token lens, three instantiations; non-trivial = accepted (invariants are then read through the accessors)",
         "C05" => "every node of every token lens; non-trivial = the reference parser judges the string and finds at least one defect (must be refused, with the matching error if it is the only defect)",
         "C06" => "every node of every token lens plus the pumping family up to 1 MiB; every string is non-trivial (each is a distinct attempt to make the library panic): from_str x3, to_string, Debug, clone, into_builder, build, typed checksum accessors, all under catch_unwind in a build with overflow checks and debug assertions",
         "C07" => "every node of the dot-segment and separator lenses and their typed copies; non-trivial = accepted and the input has a namespace or subpath region",
+        "C08" => "sweep: every Unicode scalar value as name 'c' and 'xcx' for each of the seven types, every string up to the bound over {a A 1 - _ . E-acute titlecase-dz} for pypi and nuget, through builder and parser (name fully percent-encoded), every maven namespace up to 5 tokens over {/ a %2F .}; lenses: typed vs type-agnostic differential on every node; non-trivial = a typed value was produced or a typed/untyped disagreement had to be classified",
         "C10" => "every node of every token lens; non-trivial = accepted (into_builder().build() is then compared with the value)",
         "C13" => "every node of the lenses parsed as String and as SmallString; non-trivial = accepted by the String instantiation (refusals are compared too)",
+        "C15" => "all 2^len case variants of the seven names; every string up to the bound over the letters of the names in both cases plus look-alikes; every scalar value inserted at and substituted at every position of every name; deletions, transpositions, paddings, 35 other type names; non-trivial = every string except substitutions that reproduce the original letter",
+        "C18" => "every string up to the bound over {a B / : . @ e-acute} and every scalar value inside a fixed frame as combined name for each of the seven types (split compared with a reference split; built value compared; inverse applied to the built value); lenses: every typed PURL accepted that satisfies the side condition is fed back through combined_name(); non-trivial = forward cases, and lens nodes whose side condition holds",
         _ => "",
-    };
-    let mut extra = BTreeMap::new();
-    extra.insert("lenses".to_owned(), Value::Array(lens_report));
-    extra.insert("pumping_inputs".to_owned(), json!(pump_n));
-    let rep = Report {
-        prop,
-        level: "exploration",
-        tier,
-        seed,
-        rule: rule.to_owned(),
-        exhaustive: true,
-        bounds: json!({"lenses": plans.iter().map(|p| json!({"lens": p.lens.name, "max_tokens": p.n})).collect::<Vec<_>>()}),
-        assumptions: vec![
-            "rustc/std (char::to_lowercase, catch_unwind) are trusted".into(),
-            "statements hold for the listed alphabets and token bounds only; VERIF_SEED selects nothing (enumeration is deterministic)".into(),
-        ],
-        extra,
-        states: None,
-        transitions: None,
-        traces_validated: None,
-    };
-    finish(rep, total, started, &|case| replay_case(prop, case))
+    }
+}
+
+pub struct Check {
+    pub prop: &'static str,
+    pub tier: Tier,
+    pub seed: i64,
+    pub started: Instant,
+    pub total: Acc,
+    pub stages: Vec<Value>,
+    pub bounds: Vec<Value>,
+    pub level: &'static str,
+    pub states: Option<u64>,
+    pub transitions: Option<u64>,
+    pub traces: Option<u64>,
+    pub extra: BTreeMap<String, Value>,
+    pub exhaustive: bool,
+}
+
+impl Check {
+    pub fn new(prop: &'static str, tier: Tier, seed: i64, started: Instant) -> Self {
+        let level = match prop {
+            "C05" => "fault_enumeration",
+            "C09" | "C11" | "C12" | "C14" => "model_checking",
+            _ => "exploration",
+        };
+        Check { prop, tier, seed, started, total: Acc::new(), stages: vec![], bounds: vec![], level, states: None, transitions: None, traces: None, extra: BTreeMap::new(), exhaustive: true }
+    }
+
+    pub fn add_stage(&mut self, a: Acc, report: Value) {
+        self.bounds.push(report.clone());
+        self.stages.push(report);
+        self.total.merge(a);
+    }
+
+    pub fn lens_stage(&mut self, plans: Vec<Plan>) {
+        let se = StringEval { prop: self.prop, mon: monitors_for(self.prop) };
+        for (i, pl) in plans.iter().enumerate() {
+            let earlier: Vec<&Plan> = plans[..i].iter().collect();
+            let t0 = Instant::now();
+            let mut a = lens::explore(&pl.lens, pl.n, |s, acc| {
+                let nt = se.eval(s, acc);
+                if nt {
+                    if earlier.iter().any(|e| e.lens.contains(s, e.n)) {
+                        acc.count("nontrivial_strings_already_counted_in_an_earlier_lens");
+                    } else {
+                        acc.nontrivial += 1;
+                        acc.sample(|| json!(s));
+                    }
+                }
+            });
+            self.stages.push(json!({
+                "engine": "A-lens", "lens": pl.lens.name, "prefixes": pl.lens.prefixes, "alphabet": pl.lens.alphabet, "suffixes": pl.lens.suffixes,
+                "max_tokens": pl.n, "strings": a.evals, "expected_strings": pl.lens.size(pl.n), "accepted": a.accepted,
+                "nontrivial_new": a.nontrivial, "wall_s": t0.elapsed().as_secs_f64(),
+            }));
+            self.bounds.push(json!({"lens": pl.lens.name, "max_tokens": pl.n}));
+            if a.evals != pl.lens.size(pl.n) {
+                println!("MACHINERY: lens {} was not enumerated completely ({} of {})", pl.lens.name, a.evals, pl.lens.size(pl.n));
+                self.exhaustive = false;
+            }
+            a.samples.truncate(2);
+            self.total.merge(a);
+        }
+    }
+
+    pub fn pumping_stage(&mut self) {
+        let se = StringEval { prop: self.prop, mon: monitors_for(self.prop) };
+        let inputs = lens::pumping(self.tier);
+        let t0 = Instant::now();
+        let slow = std::sync::Mutex::new((0f64, 0usize));
+        let a = par_items(inputs.len(), threads(), |i, acc| {
+            let t = Instant::now();
+            if se.eval(&inputs[i], acc) {
+                acc.nontrivial += 1;
+            }
+            let d = t.elapsed().as_secs_f64();
+            let mut g = slow.lock().unwrap();
+            if d > g.0 {
+                *g = (d, i);
+            }
+        });
+        let slowest = *slow.lock().unwrap();
+        if slowest.0 > 120.0 {
+            self.total.violate(Violation {
+                prop: "C06",
+                kind: "hang".into(),
+                case: json!({"engine": "pumping", "index": slowest.1, "len": inputs[slowest.1].len(), "head": inputs[slowest.1].chars().take(40).collect::<String>()}),
+                detail: format!("one input took {:.0}s", slowest.0),
+            });
+        }
+        self.stages.push(json!({"engine": "A8-pumping", "strings": a.evals, "max_len": inputs.iter().map(|s| s.len()).max(), "wall_s": t0.elapsed().as_secs_f64(), "slowest_single_input_s": slowest.0, "slowest_input_len": inputs.get(slowest.1).map(|s| s.len())}));
+        self.bounds.push(json!({"pumping_inputs": inputs.len()}));
+        self.total.merge(a);
+    }
+
+    pub fn finish(mut self) -> i32 {
+        let prop = self.prop;
+        self.extra.insert("stages".to_owned(), Value::Array(self.stages));
+        let rep = Report {
+            prop,
+            level: self.level,
+            tier: self.tier,
+            seed: self.seed,
+            rule: rule_for(prop).to_owned(),
+            exhaustive: self.exhaustive,
+            bounds: Value::Array(self.bounds),
+            assumptions: vec![
+                "rustc/std (char::to_lowercase, catch_unwind, HashMap) are trusted".into(),
+                "statements hold for the listed alphabets, bounds and universes only; VERIF_SEED selects nothing (every enumeration is deterministic)".into(),
+            ],
+            extra: self.extra,
+            states: self.states,
+            transitions: self.transitions,
+            traces_validated: self.traces,
+        };
+        finish(rep, self.total, self.started, &|case| replay_case(prop, case))
+    }
 }
